@@ -101,13 +101,14 @@ def run(ctx):
     # 1. model checking of (D) against (P), model sanity and the generators: independent TLC runs, side by side
     n_alpha, n_rand = (1500, 2500) if thorough else (150, 260)
     jobs = {
-        "quick": lambda: ctx.tlc("IndexEditMC", "X03_mc_quick.cfg", workers=6, extra=["-coverage", "1"],
+        "quick": lambda: ctx.tlc("IndexEditMC", "X03_mc_quick.cfg", workers=4, extra=["-coverage", "1"],
                                  label="full alphabet (30 commands), sequences of 2"),
-        "fix1": lambda: ctx.tlc("IndexEditMC", "X03_mc_descplat_fixed.cfg", workers=2, label="repaired --desc-platform handling"),
+        "fix1": lambda: ctx.tlc("IndexEditMC", "X03_mc_descplat_fixed.cfg", workers=2,
+                                label="alphabet with unparsable --desc-platform values (repaired in 9d51d78)"),
         "fix2": lambda: ctx.tlc("IndexEditMC", "X03_mc_platlookup_fixed.cfg", workers=2, extra=["-coverage", "1"],
                                 label="repaired platform lookup; refused writes and reads, small alphabet, sequences of 2"),
         "fix3": lambda: ctx.tlc("IndexEditMC", "X03_mc_equal_fixed.cfg", workers=2,
-                                label="repaired annotation comparison of descriptor.Equal"),
+                                label="alphabet with annotations without value (Descriptor.Equal repaired in c2e01d2)"),
         "each": lambda: ctx.tlc_scenarios("IndexEditGen", "X03_gen_each.cfg", workers=2, label="generator: each alphabet command"),
         "alpha": lambda: ctx.tlc_scenarios("IndexEditGen", "X03_gen_alpha.cfg", workers=1, simulate="num=%d" % n_alpha, depth=300,
                                            extra=["-seed", str(ctx.seed)], label="generator: random alphabet sequences"),
@@ -115,16 +116,17 @@ def run(ctx):
                                           extra=["-seed", str(ctx.seed + 1000)], label="generator: free random commands"),
     }
     if thorough:
-        jobs["t1"] = lambda: ctx.tlc("IndexEditMC", "X03_mc_t1.cfg", workers=8, label="full alphabet, sequences of 3, faults",
-                                     timeout=3000, heap="8g")
+        jobs["t1"] = lambda: ctx.tlc("IndexEditMC", "X03_mc_t1.cfg", workers=6, label="full alphabet, sequences of 3, faults",
+                                     timeout=3000)
         jobs["t2"] = lambda: ctx.tlc("IndexEditMC", "X03_mc_t2.cfg", workers=4, label="small alphabet (7), sequences of 5",
-                                     timeout=3000, heap="6g")
-    # model sanity: the as-found behaviours behind the three findings and three other designs must be noticed
+                                     timeout=3000)
+    # model sanity: the as-found behaviours behind the three findings (X03-1, X03-3 fixed in /repo, X03-2 known) and
+    # three other designs must keep producing their counterexamples
     for cfg in SANITY:
         jobs[cfg] = (lambda c: lambda: ctx.tlc("IndexEditMC", c, workers=2, allow_violation=True,
                                                label="expected counterexample " + c, record=False))(cfg)
     res = {}
-    with concurrent.futures.ThreadPoolExecutor(max_workers=6) as ex:
+    with concurrent.futures.ThreadPoolExecutor(max_workers=2 if thorough else 3) as ex:       # shared machine: few JVMs at a time
         futs = {k: ex.submit(f) for k, f in jobs.items()}
         for k, f in futs.items():
             res[k] = f.result()        # a ToolError of any run ends the check
@@ -174,26 +176,13 @@ def run(ctx):
             elif len(s["cmds"]) == 1 and (s["tkind"] == "reg" or s["init"] in ("seedA", "empty")):
                 keep.append(s)
             elif any(bad_dplat(world, c) for c in s["cmds"]) or read_fault(s) or bare_ann(s):
-                # the directed scenarios of the recorded findings: two variants each (every rejection costs a TLC run)
+                # the directed scenarios of the findings X03-1 / X03-3 (fixed) and X03-2 (known): two variants each
                 if s["tkind"] == "reg" and s["init"] in ("seedA", "empty"):
                     keep.append(s)
             elif len(s["cmds"]) == 2 and rng.random() < 0.35:
                 keep.append(s)
         scns = keep
-    # the known finding X03-1 rejects (nearly) every trace with an unparsable --desc-platform: keep a few
-    cap = 12 if thorough else 5
-    nbad = {"d": 0, "r": 0, "b": 0}
-    dropped_known = 0
-    sel = []
-    for s in scns:
-        k = "d" if any(bad_dplat(world, c) for c in s["cmds"]) else None
-        if k:
-            nbad[k] += 1
-            if nbad[k] > cap:
-                dropped_known += 1
-                continue
-        sel.append(s)
-    scns = sel
+    dropped_known = 0      # (before 9d51d78 the traces of finding X03-1 were capped here: each rejection costs a TLC run)
     if len(scns) < 100:
         raise vlib.ToolError("generator produced only %d scenarios" % len(scns))
     wfile = ctx.path("x03", "world.json")
@@ -269,12 +258,9 @@ def run(ctx):
     if len(traces) != len(scns):
         raise vlib.ToolError("driver returned %d traces for %d scenarios" % (len(traces), len(scns)))
 
-    # traces of the known finding X03-1 (unparsable --desc-platform) are validated in a batch of their own, so
-    # that the large batch passes in one TLC run
-    # (the same for X03-2: a refused config read)
-    # (and X03-3: an annotation without value)
-    kf = [t for t in traces if any(bad_dplat(world, c) for c in t["scenario"]["cmds"]) or read_fault(t["scenario"])
-          or bare_ann(t["scenario"])]
+    # traces of the known finding X03-2 (a refused config read) are validated in a batch of their own, so that
+    # the large batch passes in one TLC run
+    kf = [t for t in traces if read_fault(t["scenario"])]
     rest = [t for t in traces if t not in kf]
     accepted, rejected = ctx.validate_batch("IndexEditTrace", "X03_trace.cfg", rest, timeout=3000, max_reports=40)
     if kf:
